@@ -1,17 +1,21 @@
 #!/bin/sh
-# Build the framework from files on disk only (offline): Coq development (full
-# .vo build), Go harnesses (against /repo with tag verif).
+# Build the framework from files on disk only (offline): Go harnesses (against
+# /repo, tag verif), source-derived model fragments, Coq development (full .vo build).
 set -e
 cd "$(dirname "$0")"
 export GOFLAGS=-mod=mod GOPROXY=off GOSUMDB=off GOTOOLCHAIN=local CGO_ENABLED=0
 mkdir -p build evidence replays
 cp /repo/go.sum harness/go.sum
-(cd harness && for d in cmd/*; do go build -tags verif -o ../build/$(basename $d) ./$d; done)
+[ -f harness/go.sum.extra ] && cat harness/go.sum.extra >> harness/go.sum
+(cd harness && for d in cmd/*/; do
+   ls "$d"*.go >/dev/null 2>&1 || continue
+   go build -tags verif -o ../build/$(basename "$d") ./"$d"
+ done)
 ./build/geninit > build/Initialisms.v.new
 cmp -s build/Initialisms.v.new coq/theories/Generated/Initialisms.v || cp build/Initialisms.v.new coq/theories/Generated/Initialisms.v
 cd coq
-coq_makefile -f _CoqProject $(find theories -name '*.v' | sort) -o Makefile
-find theories -name '*.v' | sort | sed 's|^|theories/|;s|^theories/theories/|theories/|' > .filelist.tmp
+find theories -name '*.v' | sort > .filelist.new
+coq_makefile -f _CoqProject $(cat .filelist.new) -o Makefile
 python3 - <<'PY'
 import os
 srcs=[]
@@ -20,5 +24,5 @@ for root,_,files in os.walk('theories'):
         if f.endswith('.v'): srcs.append(os.path.join(root,f))
 open('.filelist','w').write("\n".join(sorted(srcs)))
 PY
-rm -f .filelist.tmp
+rm -f .filelist.new
 timeout 3000 make -j16
